@@ -127,7 +127,7 @@ type protoErr string
 func (e protoErr) Error() string { return string(e) }
 
 // ---------------------------------------------------------------- the world under test
-const barrier = "zz-barrier"
+const barrier = "!barrier" // sorts before every channel and pattern of the programs: a subscription that sorts after them would end every ordered walk over the subscriptions early
 
 type sub struct {
 	name   string
@@ -435,7 +435,7 @@ func envInt(name string, def int) int {
 }
 
 var channels = []string{"a", "ab", "b"}
-var patterns = []string{"a*", "*"}
+var patterns = []string{"a*", "*", "ab"}
 
 func probes(rng *rand.Rand, full bool) []step {
 	var out []step
